@@ -2710,6 +2710,229 @@ def gen_comparator_tables():
     return "\n".join(out), info
 
 
+# ---------------------------------------------------------------------------------------------------
+# C03 (text of the GTF): every string literal GFFPrinter.dump / TranscriptModel / GeneInfo.set_gene_attributes put
+# into a line (added by the C03-attributes builder; add-only)
+# ---------------------------------------------------------------------------------------------------
+
+def _lean_str_esc(s):
+    if not isinstance(s, str):
+        raise TranslationError("string literal expected, got %r" % (s,))
+    out = []
+    for ch in s:
+        if ch == "\\":
+            out.append("\\\\")
+        elif ch == '"':
+            out.append('\\"')
+        elif ch == "\t":
+            out.append("\\t")
+        elif ch == "\n":
+            out.append("\\n")
+        elif 32 <= ord(ch) < 127:
+            out.append(ch)
+        else:
+            raise TranslationError("unsupported character %r in a GTF format literal" % ch)
+    return '"' + "".join(out) + '"'
+
+
+def _fmt_directives(s):
+    """the %-directives of a format literal; only %s and %d are supported by the model's interpreter"""
+    ds = []
+    i = 0
+    while i < len(s):
+        if s[i] == "%":
+            if i + 1 >= len(s) or s[i + 1] not in "sd":
+                raise TranslationError("unsupported %%-directive in format literal %r" % s)
+            ds.append(s[i + 1])
+            i += 2
+        else:
+            i += 1
+    return "".join(ds)
+
+
+def _mod_fmt(node, what):
+    """`"<literal>" % args` -> (literal, number of args)"""
+    if not (isinstance(node, ast.BinOp) and isinstance(node.op, ast.Mod) and isinstance(node.left, ast.Constant)
+            and isinstance(node.left.value, str)):
+        raise TranslationError("%s: expected '<string literal> %% (...)', found %s" % (what, ast.dump(node)[:120]))
+    n = len(node.right.elts) if isinstance(node.right, ast.Tuple) else 1
+    if n != len(_fmt_directives(node.left.value)):
+        raise TranslationError("%s: %d arguments for format %r" % (what, n, node.left.value))
+    return node.left.value
+
+
+def _assigns(fn, name):
+    return [n for n in ast.walk(fn) if isinstance(n, ast.Assign) and len(n.targets) == 1
+            and isinstance(n.targets[0], ast.Name) and n.targets[0].id == name]
+
+
+def _one_assign(fn, name, pred=None):
+    c = [n.value for n in _assigns(fn, name) if pred is None or pred(n.value)]
+    if len(c) != 1:
+        raise TranslationError("GFFPrinter.dump: expected exactly one matching assignment to %s, found %d" % (name, len(c)))
+    return c[0]
+
+
+def _flatten_add(node):
+    if isinstance(node, ast.BinOp) and isinstance(node.op, ast.Add):
+        return _flatten_add(node.left) + _flatten_add(node.right)
+    return [node]
+
+
+def _skip_list(test, what):
+    """`attr in ['a', 'b', ...]` -> the list"""
+    if not (isinstance(test, ast.Compare) and len(test.ops) == 1 and isinstance(test.ops[0], ast.In)
+            and isinstance(test.comparators[0], (ast.List, ast.Tuple, ast.Set))):
+        raise TranslationError("%s: expected `attr in [literals]`" % what)
+    vals = [e.value for e in test.comparators[0].elts if isinstance(e, ast.Constant) and isinstance(e.value, str)]
+    if len(vals) != len(test.comparators[0].elts):
+        raise TranslationError("%s: non-literal member" % what)
+    return vals
+
+
+def gen_gtf_format():
+    tp = parse("src/transcript_printer.py")
+    gi = parse("src/gene_info.py")
+    dump = find_def(tp, "dump", "GFFPrinter")
+    info = {}
+    is_mod = lambda v: isinstance(v, ast.BinOp) and isinstance(v.op, ast.Mod)
+    info["gtf_gene_fmt"] = _mod_fmt(_one_assign(dump, "gene_line"), "gene_line")
+    info["gtf_transcript_fmt"] = _mod_fmt(_one_assign(dump, "transcript_line"), "transcript_line")
+    info["gtf_prefix_fmt"] = _mod_fmt(_one_assign(dump, "prefix_columns"), "prefix_columns")
+    info["gtf_suffix_fmt"] = _mod_fmt(_one_assign(dump, "suffix_columns"), "suffix_columns")
+    # exon_id = model.transcript_id + "_%d_%d_%s" % (...)
+    parts = _flatten_add(_one_assign(dump, "exon_id"))
+    if len(parts) != 2 or not (isinstance(parts[0], ast.Attribute) and parts[0].attr == "transcript_id"):
+        raise TranslationError("GFFPrinter.dump: exon_id is no longer transcript_id + format")
+    info["gtf_exon_key_fmt"] = _mod_fmt(parts[1], "exon_id")
+    # default source of a gene line and the gene_info overrides
+    src = [v for v in (n.value for n in _assigns(dump, "source")) if isinstance(v, ast.Constant)]
+    if len(src) != 1 or not isinstance(src[0].value, str):
+        raise TranslationError("GFFPrinter.dump: default `source = <literal>` not found")
+    info["gtf_default_source"] = src[0].value
+    # " " + gene_info.feature_attributes[...]
+    for var, key in (("transcript_additiional_info", "gtf_tx_extra_sep"), ("exon_additiional_info", "gtf_exon_extra_sep")):
+        v = _one_assign(dump, var, lambda v: isinstance(v, ast.BinOp))
+        ps = _flatten_add(v)
+        if len(ps) != 2 or not isinstance(ps[0], ast.Constant) or not isinstance(ps[1], ast.Subscript):
+            raise TranslationError("GFFPrinter.dump: %s is no longer <literal> + feature_attributes[...]" % var)
+        info[key] = ps[0].value
+        empties = [n.value.value for n in _assigns(dump, var) if isinstance(n.value, ast.Constant)]
+        if empties != [""]:
+            raise TranslationError("GFFPrinter.dump: %s default is not the empty string" % var)
+    if [n.value.value for n in _assigns(dump, "gene_additiional_info") if isinstance(n.value, ast.Constant)] != [""]:
+        raise TranslationError("GFFPrinter.dump: gene_additiional_info default is not the empty string")
+    # the feature line: write(prefix_columns + "<fmt>" % (...) + suffix_columns + '<fmt>' % (...))
+    writes = [n for n in ast.walk(dump) if isinstance(n, ast.Call) and isinstance(n.func, ast.Attribute)
+              and n.func.attr == "write" and n.args and len([m for m in ast.walk(n.args[0]) if is_mod(m)]) == 2]
+    if len(writes) != 1:
+        raise TranslationError("GFFPrinter.dump: the feature-line write (two formats) was not found")
+    ps = _flatten_add(writes[0].args[0])
+    shape = [(p.id if isinstance(p, ast.Name) else "%" if is_mod(p) else "?") for p in ps]
+    if shape != ["prefix_columns", "%", "suffix_columns", "%"]:
+        raise TranslationError("GFFPrinter.dump: feature line is no longer prefix + fmt + suffix + fmt (%s)" % shape)
+    info["gtf_feature_coord_fmt"] = _mod_fmt(ps[1], "feature line")
+    info["gtf_feature_attr_fmt"] = _mod_fmt(ps[3], "feature line")
+    # literals: "exons" key, 'exon' feature type, '-' strand
+    ca = [n for n in ast.walk(dump) if isinstance(n, ast.Call) and isinstance(n.func, ast.Attribute)
+          and n.func.attr == "check_additional"]
+    aa = [n for n in ast.walk(dump) if isinstance(n, ast.Call) and isinstance(n.func, ast.Attribute)
+          and n.func.attr == "add_additional_attribute"]
+    if len(ca) != 1 or len(aa) != 1 or not isinstance(ca[0].args[0], ast.Constant) or \
+            not isinstance(aa[0].args[0], ast.Constant) or ca[0].args[0].value != aa[0].args[0].value:
+        raise TranslationError("GFFPrinter.dump: check_additional / add_additional_attribute of the exon count changed")
+    info["gtf_exons_key"] = ca[0].args[0].value
+    ap = [n for n in ast.walk(dump) if isinstance(n, ast.Call) and isinstance(n.func, ast.Attribute)
+          and n.func.attr == "append" and isinstance(n.func.value, ast.Name) and n.func.value.id == "exons_to_print"]
+    if len(ap) != 1 or not isinstance(ap[0].args[0], ast.Tuple) or len(ap[0].args[0].elts) != 3 or \
+            not isinstance(ap[0].args[0].elts[2], ast.Constant):
+        raise TranslationError("GFFPrinter.dump: exons_to_print.append((start, end, <literal>)) not found")
+    info["gtf_exon_feature"] = ap[0].args[0].elts[2].value
+    rev = [n for n in ast.walk(dump) if isinstance(n, ast.IfExp) and isinstance(n.test, ast.Compare)
+           and isinstance(n.test.left, ast.Attribute) and n.test.left.attr == "strand"]
+    if len(rev) != 1 or not isinstance(rev[0].test.ops[0], ast.Eq) or not isinstance(rev[0].test.comparators[0], ast.Constant):
+        raise TranslationError("GFFPrinter.dump: `sorted(.., reverse=True) if model.strand == <literal> else sorted(..)` not found")
+    info["gtf_reverse_strand"] = rev[0].test.comparators[0].value
+    # TranscriptModel: default source, additional_attributes_str
+    init = find_def(gi, "__init__", "TranscriptModel")
+    names = [a.arg for a in init.args.args]
+    if "source" not in names or not init.args.defaults:
+        raise TranslationError("TranscriptModel.__init__: no `source` parameter with a default")
+    d = init.args.defaults[names.index("source") - (len(names) - len(init.args.defaults))]
+    if not isinstance(d, ast.Constant):
+        raise TranslationError("TranscriptModel.__init__: default source is not a literal")
+    info["tm_default_source"] = d.value
+    aas = find_def(gi, "additional_attributes_str", "TranscriptModel")
+    if len(aas.body) != 1 or not isinstance(aas.body[0], ast.Return):
+        raise TranslationError("additional_attributes_str: expected a single return")
+    call = aas.body[0].value
+    if not (isinstance(call, ast.Call) and isinstance(call.func, ast.Attribute) and call.func.attr == "join"
+            and isinstance(call.func.value, ast.Constant) and isinstance(call.args[0], ast.ListComp)):
+        raise TranslationError("additional_attributes_str: expected '<sep>'.join([fmt % (k, v) for k, v in ...items()])")
+    info["tm_attr_join"] = call.func.value.value
+    info["tm_attr_fmt"] = _mod_fmt(call.args[0].elt, "additional_attributes_str")
+    # GeneInfo.set_gene_attributes: skip lists and the pair format (gene / transcript / exon loops, in source order)
+    sga = find_def(gi, "set_gene_attributes", "GeneInfo")
+    skips = [n for n in ast.walk(sga) if isinstance(n, ast.If) and isinstance(n.test, ast.Compare)
+             and isinstance(n.test.ops[0], ast.In) and len(n.body) == 1 and isinstance(n.body[0], ast.Continue)]
+    skips.sort(key=lambda n: n.lineno)
+    augs = [n for n in ast.walk(sga) if isinstance(n, ast.AugAssign) and isinstance(n.op, ast.Add)]
+    augs.sort(key=lambda n: n.lineno)
+    if len(skips) != 3 or len(augs) != 3:
+        raise TranslationError("set_gene_attributes: expected three skip lists and three `+=` (found %d, %d)" % (len(skips), len(augs)))
+    for nm, sk, au in zip(("gene", "transcript", "exon"), skips, augs):
+        info["gi_%s_attr_skip" % nm] = _skip_list(sk.test, "set_gene_attributes (%s)" % nm)
+        info["gi_%s_attr_fmt" % nm] = _mod_fmt(au.value, "set_gene_attributes (%s)" % nm)
+    ek = [n.value for n in _assigns(sga, "exon_id")]
+    if len(ek) != 1:
+        raise TranslationError("set_gene_attributes: expected one assignment to exon_id")
+    parts = _flatten_add(ek[0])
+    if len(parts) != 2 or not (isinstance(parts[0], ast.Attribute) and parts[0].attr == "id"):
+        raise TranslationError("set_gene_attributes: exon_id is no longer t.id + format")
+    info["gi_exon_key_fmt"] = _mod_fmt(parts[1], "set_gene_attributes exon_id")
+    of = find_assign(find_def(gi, "GeneInfo"), "OTHER_FEATURES")
+    if not isinstance(of, ast.Set) or not all(isinstance(e, ast.Constant) and isinstance(e.value, str) for e in of.elts):
+        raise TranslationError("GeneInfo.OTHER_FEATURES is not a set of string literals")
+    info["gi_other_features"] = sorted(e.value for e in of.elts)
+    # attribute keys written by add_additional_attribute anywhere in src (literal, or a local name bound to a literal)
+    keys = []
+    for rel in sorted(os.listdir(os.path.join(REPO, "src"))):
+        if not rel.endswith(".py"):
+            continue
+        t = parse("src/" + rel)
+        for fn in [n for n in ast.walk(t) if isinstance(n, ast.FunctionDef)]:
+            local = {n.targets[0].id: n.value.value for n in ast.walk(fn) if isinstance(n, ast.Assign)
+                     and len(n.targets) == 1 and isinstance(n.targets[0], ast.Name) and isinstance(n.value, ast.Constant)
+                     and isinstance(n.value.value, str)}
+            for c in ast.walk(fn):
+                if isinstance(c, ast.Call) and isinstance(c.func, ast.Attribute) and c.func.attr == "add_additional_attribute":
+                    a = c.args[0]
+                    if isinstance(a, ast.Constant) and isinstance(a.value, str):
+                        k = a.value
+                    elif isinstance(a, ast.Name) and a.id in local:
+                        k = local[a.id]
+                    elif fn.name == "add_additional_attribute":
+                        continue
+                    else:
+                        raise TranslationError("%s:%d add_additional_attribute with a non-literal key" % (rel, c.lineno))
+                    if k not in keys:
+                        keys.append(k)
+    info["gtf_additional_keys"] = sorted(keys)
+    out = ["-- GENERATED by harness/translate.py from /repo/src/transcript_printer.py, /repo/src/gene_info.py -- do not edit",
+           "namespace IsoVerif.Gen", ""]
+    for k in sorted(info):
+        v = info[k]
+        if isinstance(v, list):
+            out.append("def %s : List String := [%s]" % (k, ", ".join(_lean_str_esc(x) for x in v)))
+        else:
+            if k.endswith("_fmt"):
+                _fmt_directives(v)
+            out.append("def %s : String := %s" % (k, _lean_str_esc(v)))
+    out.append("\nend IsoVerif.Gen\n")
+    return "\n".join(out), info
+
+
+
 GENERATORS = [("Prims", gen_prims), ("Enums", gen_enums), ("EventClasses", gen_event_classes),
               ("Strategies", gen_strategies), ("Constants", gen_constants), ("SharedState", gen_shared_state),
               ("SetSites", gen_set_sites),            # C06
@@ -2723,6 +2946,7 @@ GENERATORS = [("Prims", gen_prims), ("Enums", gen_enums), ("EventClasses", gen_e
               ("Resolver", gen_resolver),             # C08
               ("ModelConstruction", gen_model_construction),   # C04
               ("ComparatorTables", gen_comparator_tables),     # C01 (compare_junctions)
+              ("GtfFormat", gen_gtf_format),          # C03 (text of the GTF lines)
               ]
 
 
